@@ -259,3 +259,133 @@ def oraclePair (mode : String) (o : Opts) (env : Env) (a b : Node) : Verdict :=
   | some (path, p, q) => .fail mode s!"at {path}: {showN p} vs {showN q}"
 
 end VueJsx
+
+/-! ### C13: patch flags and dynamic-prop lists are sound hints (clauses of the statement, on the real output) -/
+namespace VueJsx
+
+/-- a value that cannot differ between renders: a closed literal -/
+partial def specConst (v : Node) : Bool :=
+  match v with
+  | .mk .str _ _ => true
+  | .mk .num _ _ => true
+  | .mk .bool _ _ => true
+  | .mk .null _ _ => true
+  | .mk .bigint _ _ => true
+  | .mk .regex _ _ => true
+  | .mk .ident ("undefined" :: _) _ => true
+  | .mk (.other "cat") _ parts => parts.all specConst
+  | .mk .array _ [.mk .list _ elems] => elems.all fun e => match e with | .mk .arg _ [x] => specConst x | _ => false
+  | .mk .object _ [.mk .list _ props] => props.all fun p =>
+      match p with
+      | .mk .kv _ [.mk .computed _ _, _] => false
+      | .mk .kv _ [_, x] => specConst x
+      | .mk .ident ("undefined" :: _) _ => true
+      | _ => false
+  | _ => false
+
+structure PropsFacts where
+  entries : List (String × Node) := []     -- statically keyed entries
+  hasOpaque : Bool := false                -- spread / merged helper object / computed key
+  deriving Inhabited
+
+def propsFacts (props : Node) : PropsFacts :=
+  props.kids.foldl (fun (acc : PropsFacts) item =>
+    match item with
+    | .mk (.other "seg") _ es =>
+      es.foldl (fun (acc : PropsFacts) e =>
+        match e with
+        | .mk (.other "p") [k] [v] => { acc with entries := acc.entries ++ [(k, v)] }
+        | _ => { acc with hasOpaque := true }) acc
+    | .mk _ _ [.mk .object _ [.mk .list _ props]] =>
+      -- a layer that is an object literal with spreads/computed keys inside: its static keys are still present
+      props.foldl (fun (acc : PropsFacts) p =>
+        match p with
+        | .mk .kv _ [k, v] => (match k with
+            | .mk .computed _ _ => acc
+            | k => (match staticKeyOf k with | some s => { acc with entries := acc.entries ++ [(s, v)] } | none => acc))
+        | _ => acc) { acc with hasOpaque := true }
+    | _ => { acc with hasOpaque := true }) {}
+
+def natOfAtom (s : String) : Option Nat := s.toNat?
+
+def hasBit (flags bit : Nat) : Bool := (flags / bit) % 2 == 1
+
+/-- child items of a denoted/evaluated KIDS component -/
+def kidItems (k : Node) : List Node :=
+  let fromSlots (entries : List Node) : List Node :=
+    match entries.find? (fun e => match e with | .mk (.other "p") ["default"] _ => true | _ => false) with
+    | some (.mk _ _ [.mk .arrow _ [_, .mk .array _ [.mk .list _ items], _, _]]) => items
+    | _ => []
+  match k with
+  | .mk (.other "kids") _ items => items
+  | .mk (.other "slots") _ entries => fromSlots entries
+  | .mk (.other "slotcond") _ [_, .mk (.other "slots") _ entries] => fromSlots entries
+  | _ => []
+
+/-- a direct child of this element's slot — or of a slot reached from it by direct JSX nesting — is an identifier
+    bound in the file -/
+partial def hasBoundIdentChild (d : Node) : Bool :=
+  (kidItems (vKids d)).any fun it =>
+    match it with
+    | .mk .arg _ [.mk .ident (_ :: b :: _) _] => b.toList.head? == some 'b'
+    | .mk .spreadArg _ [.mk .ident (_ :: b :: _) _] => b.toList.head? == some 'b'
+    | .mk .arg _ [.mk (.other "vnode") as ks] => as.contains "direct" && hasBoundIdentChild (.mk (.other "vnode") as ks)
+    | _ => false
+
+def c13Pair (o : Opts) (p : VPair) : Option (String × String) :=
+  let hints := (vHints p.e).kids            -- arguments 4.. of the vnode call, then the slot-object hint (or `none`)
+  let slotH : Option Node := match hints.reverse with | h :: _ => (if isNone h then none else some h) | [] => none
+  let hintArgs := hints.dropLast
+  let flagsN := hintArgs.find? (fun h => h.kind == K.num)
+  let dynN := hintArgs.find? (fun h => h.kind == K.array)
+  let flags : Option Nat := flagsN.bind (fun n => n.atoms.head?.bind natOfAtom)
+  let dyn : List String := match dynN with
+    | some (.mk .array _ [.mk .list _ es]) => es.filterMap fun e => match e with | .mk .arg _ [.mk .str (s :: _) _] => some s | _ => none
+    | _ => []
+  let facts := propsFacts (vProps p.e)      -- the hints are about the props the call actually passes
+  let isElem := !vIsComponent p.d
+  let fail (k d : String) : Option (String × String) := some (k, d)
+  if !o.optimize && (flagsN.isSome || dynN.isSome || slotH.isSome) then fail "hints-without-optimize" "hint emitted although optimize is off" else
+  match flagsN, flags with
+  | some n, none => fail "flag-not-a-natural-number" (showN n)
+  | _, _ =>
+  let allowed := [2, 4, 8, 16, 32, 512]
+  let f := flags.getD 0
+  if flags.isSome && (f == 0 || f ≥ 1024 || (f - (allowed.filter (hasBit f)).foldl (· + ·) 0) != 0) then
+    fail "flag-bits" s!"flag {f} is not a union of the element-level bits"
+  else if dynN.isSome && dyn.any (fun k => !(facts.entries.any (·.1 == k))) then
+    fail "dynamic-prop-not-present" s!"dynamic props {dyn} name a prop that is not present"
+  else if flags.isSome && !hasBit f 16 && facts.hasOpaque then
+    fail "spread-without-full-props" s!"flag {f} on props with a spread, merged helper object or computed key"
+  else if flags.isSome && !hasBit f 16 then
+    match facts.entries.find? (fun e =>
+      !specConst e.2 && e.1 != "key" && e.1 != "ref" &&
+        !(if isElem && e.1 == "class" then hasBit f 2
+          else if isElem && e.1 == "style" then hasBit f 4
+          else dyn.contains e.1 && hasBit f 8)) with
+    | some e => fail (if e.1 == "on" then "uncovered-prop/on" else "uncovered-prop") s!"prop {e.1} can change between renders but flag {f} / dynamic props {dyn} do not cover it"
+    | none =>
+      if f == 32 && (facts.entries.any (·.1 == "ref") || !(vDirs p.d).kids.isEmpty) then
+        fail "hydration-bit-alone" "ref or runtime directive with HYDRATE_EVENTS alone"
+      else none
+  else none
+  |>.orElse fun _ =>
+    match slotH with
+    | none => none
+    | some h =>
+      match h.atoms.head?.bind natOfAtom with
+      | some v =>
+        if v != 1 && v != 2 then fail "slot-flag-range" s!"slot flag {v}"
+        else if hasBoundIdentChild p.d && v != 2 then fail "slot-flag-stable-with-bound-child" s!"slot flag {v} although a direct child is an identifier bound in the file"
+        else none
+      | none => fail "slot-flag-range" (showN h)
+
+def oracleC13 (o : Opts) (env : Env) (inN outN : Node) : Verdict :=
+  if o.resolveType then .skip "resolveType" else
+  if hasJsxAttrValue inN then .skip "jsx-element-as-attribute-value" else
+  let sv := semView o env (effectivePragma o env) inN outN
+  match (sv.pairs.filter inDom).findSome? (c13Pair o) with
+  | some (k, d) => .fail k d
+  | none => .ok
+
+end VueJsx
